@@ -154,6 +154,24 @@ def main():
                 nodes = planted(rnd, n, a, b)
                 if nodes is not None:
                     add("planted", nodes=nodes, a=a, b=b)
+        # crossings that join END POINTS of the two halves of the recursion: closed curves B(0) = B(1), mirror-symmetric about a
+        # coordinate axis (the halves' boxes are then tangent along the axis and only the end-point pairing of
+        # tangent_bbox_intersection can see the crossing), their rotations by 45 degrees, and "rho" curves - the same loop
+        # traversed over [0, 2] (B(0) = B(1/2)) or reversed (B(1/2) = B(1)); integer nets, the identity holds exactly
+        for n in range(3, 8):
+            for _ in range(max(2, reps // 2)):
+                half = [(Fr(-rnd.randint(1, 6)), Fr(rnd.randint(1, 6))) for _ in range((n - 1) // 2)]
+                pts = [(Fr(0), Fr(0))] + half
+                if n % 2 == 0:
+                    pts.append((Fr(0), Fr(rnd.randint(2, 8))))
+                pts += [(-x, y) for x, y in reversed(half)] + [(Fr(0), Fr(0))]
+                for variant in ("axis", "swap", "rot45"):
+                    q = pts if variant == "axis" else [(y, x) for x, y in pts] if variant == "swap" else [(x - y, x + y) for x, y in pts]
+                    closed = [[p[0] for p in q], [p[1] for p in q]]
+                    add("planted", nodes=closed, a=Fr(0), b=Fr(1), family="closed-" + variant)
+                    rho = [X.specialize_exact(r, Fr(0), Fr(2)) for r in closed]
+                    add("planted", nodes=rho, a=Fr(0), b=Fr(1, 2), family="rho-" + variant)
+                    add("planted", nodes=[list(reversed(r)) for r in rho], a=Fr(1, 2), b=Fr(1), family="rho-reversed-" + variant)
         # random integer nets: all their self-crossings with a parameter gap >= 3/16 are certified by the exact isolator
         for n in range(3, 9):
             for _ in range(2 * reps):
@@ -220,6 +238,7 @@ def main():
         finally:
             sys.setrecursionlimit(old)
 
+    pending_mismatch = []
     for (kind, kw), mi, si in zip(cases, midx, sidx):
         nodes = kw["nodes"]
         arr = C.farr(nodes)
@@ -252,7 +271,10 @@ def main():
                 d = res.dist.setdefault("model_fuel_exhausted", {})
                 d[st] = d.get(st, 0) + 1
             elif not same and not (kind == "large-turning" and st != "ok"):
-                res.mismatch("self_intersections", rc, str(impl)[:300], str(replies[si])[:300], why)
+                # decided after the property oracle has seen the case: when the implementation fails the PROPERTY on this input
+                # (impl != spec) the exact model - which agrees with the spec - necessarily differs from it as well; that is the
+                # failing input itself, not a broken correspondence
+                pending_mismatch.append((rc, str(impl)[:300], str(replies[si])[:300], why))
         if kind == "nonterminating":
             if st == "recursion":
                 res.failure("self-intersections:zero-edge-then-pi-turn", "self_intersections of [(0,0),(0,0),(-1,0)] recurses without bound (RecursionError)", rc)
@@ -307,7 +329,14 @@ def main():
             for c in good:
                 hits = [x for x in cols if c["s"][0] - infl <= x[0] <= c["s"][1] + infl and c["t"][0] - infl <= x[1] <= c["t"][1] + infl]
                 if len(hits) != 1:
-                    res.failure("self:certified-crossing-missed" if not hits else "self:certified-crossing-duplicated",
+                    def near_dyadic(iv):
+                        # the enclosure (inflated by 2^-44) contains k / 2^m with m <= 8: a break point of the bisection
+                        lo, hi = iv[0] - Fr(1, 2 ** 44), iv[1] + Fr(1, 2 ** 44)
+                        return any(math.ceil(lo * 2 ** m) <= math.floor(hi * 2 ** m) for m in range(0, 9))
+                    at_break = not hits and near_dyadic(c["s"]) and near_dyadic(c["t"]) and \
+                        max(abs(X.bern(r, Fr(round(c["s"][0] * 256), 256)) - X.bern(r, Fr(round(c["t"][0] * 256), 256))) for r in exact_nodes) != 0
+                    res.failure("self:crossing-within-rounding-of-break-points-missed" if at_break else
+                                "self:certified-crossing-missed" if not hits else "self:certified-crossing-duplicated",
                                 "degree %d integer net: the certified transversal self-crossing near (%.9f, %.9f) (sin^2 >= %.3g) is returned "
                                 "%d times; returned %s" % (n, float(c["s"][0]), float(c["t"][0]), float(c["sin2"]), len(hits),
                                                            [(float(x), float(y)) for x, y in cols]), rc)
@@ -328,6 +357,12 @@ def main():
                 res.failure("self:planted-crossing-missed" if not hits else "self:planted-crossing-duplicated",
                             "degree %d curve with a transversal self-crossing planted at (%s, %s): returned %s" %
                             (n, a, b, [(float(x), float(y)) for x, y in cols]), rc)
+    for rc_, impl_, model_, why_ in pending_mismatch:
+        if any(f.get("replay") == rc_ for f in res.failures):
+            d = res.dist.setdefault("model_differs_on_failing_input", {})
+            d["self_intersections"] = d.get("self_intersections", 0) + 1
+        else:
+            res.mismatch("self_intersections", rc_, impl_, model_, why_)
     res.emit()
     if rep:
         bad = bool(res.failures)
